@@ -26,15 +26,23 @@ pub fn spelling(l: &J) -> String {
     let q = char::from_u32(l["q"].as_u64().unwrap_or(34) as u32).unwrap_or('"');
     let n = l["n"].as_u64().unwrap_or(1) as usize;
     let mut s = String::new();
+    // "f": the same value written as an f-string without interpolations (braces are written twice)
+    let fstr = l["f"] == true;
     if l["raw"] == true {
         s.push('r');
+    } else if fstr {
+        s.push('f');
     }
     for _ in 0..n {
         s.push(q);
     }
     for p in l["pieces"].as_array().unwrap_or(&vec![]) {
         if p["k"] == "raw" {
-            s.push(char::from_u32(p["c"].as_u64().unwrap_or(63) as u32).unwrap_or('?'));
+            let c = char::from_u32(p["c"].as_u64().unwrap_or(63) as u32).unwrap_or('?');
+            s.push(c);
+            if fstr && (c == '{' || c == '}') {
+                s.push(c);
+            }
         } else {
             s.push('\\');
             s.push_str(p["e"].as_str().unwrap_or(""));
